@@ -403,11 +403,15 @@ def run_case(case):
     # S's view of the bus: everything it sent (even if lost afterwards) and everything that was not lost on the way
     sn = SN.sniff(layer, [f for f in W.bus.frames if f.src == 'S' or not f.lost])
 
+    def stolen(t0, t1):
+        # time the harness kept a thread of S blocked inside a slow send call: not S's own time for noticing the end of a session
+        return sum(max(0.0, min(b, t1) - max(a, t0)) for (a, b) in S.slow_log)
+
     def in_progress(s, at):
         if s.t_open > at + 1e-9:
             return False
         if s.t_close is not None and not (preempt and s.abort is not None):
-            return s.t_close >= at - (0.1 if preempt else 0.02)
+            return s.t_close >= at - (0.1 if preempt else 0.02) - stolen(s.t_close, at)
         # (with injected pre-emption a peer abort that lands in the middle of a burst may be overwritten by the burst's own state update; the
         # session is then released by its time-out -- the property does not quantify over schedules, so this is tolerated here; C08 judges it)
         bound = 3.0 if fd else 1.25
